@@ -239,6 +239,79 @@ pub fn via_jax(ctx: &mut Ctx, f: &Facts, o: &JaxOpts, transitive: bool, what: &s
     }
 }
 
+/// Sequences of ontologies in one process: a query must not depend on which ontology was queried before.
+/// For ordered pairs (A, B) of labelled DAGs over the same ids (all 25 x 25 pairs of 3-term graphs, and for
+/// every 4-term graph A four graphs B) with different annotation patterns: A is built and checked, then B is
+/// built INTO THE SAME SLOT (so it lives at the address A had) and checked, then A again. `per_ont` is the
+/// property's own oracle for one ontology; it returns the first difference.
+pub fn ontology_sequences(ctx: &mut Ctx, prefix: &str, mode: Mode, per_ont: &mut dyn FnMut(&hpo::Ontology, &RefOnt) -> Option<(String, String, String)>) {
+    use crate::space::all_dags;
+    let pool = super::c01::POOL_ROOTS;
+    for n in [3usize, 4] {
+        let dags = all_dags(n);
+        let partners: Vec<Vec<usize>> = (0..dags.len()).map(|i| if n == 3 { (0..dags.len()).collect() } else { (0..4).map(|j| (i * 7 + j * 131 + 1) % dags.len()).collect() }).collect();
+        ctx.space(&format!("{prefix}/ontology-sequences/D{n}"), &format!("{} labelled DAGs A over {:?} x {} partner graphs B over the same ids (other annotation pattern): A queried, then B built into the same slot and queried, then A again; every query result against the model of the ontology it was asked of", dags.len(), &pool[..n], partners[0].len()));
+        for (i, da) in dags.iter().enumerate() {
+            if !ctx.take() {
+                continue;
+            }
+            ctx.state();
+            let mk = |d: &crate::space::Dag, s: u32| -> (Facts, RefOnt) {
+                let mut f = Facts::from_dag(d, &pool);
+                f.version = (2024, 2, 29);
+                let ids: Vec<u32> = f.terms.iter().map(|t| t.id).collect();
+                f.anns = AnnGroups::new(s, &ids).interleaved();
+                let r = RefOnt::derive(&f);
+                (f, r)
+            };
+            let (fa, ra) = mk(da, 0b0011);
+            let mut slot: Option<hpo::Ontology> = None;
+            for &j in &partners[i] {
+                let (fb, rb) = mk(&dags[j], 0b0110);
+                if fa.edges != fb.edges {
+                    ctx.nontrivial();
+                }
+                for (step, (f, r)) in [(&fa, &ra), (&fb, &rb), (&fa, &ra)].into_iter().enumerate() {
+                    ctx.exec();
+                    ctx.validated();
+                    ctx.transitions(f.n_steps());
+                    slot = None;
+                    match drive::build(f, mode) {
+                        Ok(o) => slot = Some(o),
+                        Err(e) => {
+                            ctx.violation("Builder", "[builder] construction fails on valid facts", json!({"case": f.to_json(), "observed": e}));
+                            break;
+                        }
+                    }
+                    let ont = slot.as_ref().unwrap();
+                    let res = crate::ctx::guard(|| per_ont(ont, r));
+                    let order = ["first ontology", "second ontology, built where the first one was", "first ontology again"][step];
+                    match res {
+                        Ok(None) => {}
+                        Ok(Some((site, sig, det))) => {
+                            ctx.violation(&site, &format!("[ontology sequence] {sig}"), json!({"queried": f.to_json(), "queried_as": order, "first": fa.to_json(), "second": fb.to_json(), "difference": det}));
+                            break;
+                        }
+                        Err(p) => {
+                            ctx.violation("read API", "[ontology sequence] panics", json!({"queried": f.to_json(), "queried_as": order, "first": fa.to_json(), "second": fb.to_json(), "observed": p}));
+                            break;
+                        }
+                    }
+                }
+            }
+            ctx.sample(|| json!({"A": da.describe(), "partners": partners[i].len(), "ids": &pool[..n]}));
+        }
+    }
+}
+
+/// `per_ont` for properties whose oracle is the whole-read-API observation against the model.
+pub fn obs_oracle(mode: Mode) -> impl FnMut(&hpo::Ontology, &RefOnt) -> Option<(String, String, String)> {
+    move |ont, r| match crate::obs::Obs::of(ont) {
+        Err(i) => Some((i.site, "read API inconsistent or panicking".to_string(), i.what)),
+        Ok(o) => o.diff(&crate::obs::Obs::expected(r, mode), false),
+    }
+}
+
 /// A family of small fact sets over HP:1, HP:118 and up to two further terms, with obsolete / replaced
 /// terms, odd names and all three record kinds - used by the binary and text format properties.
 /// `stride`: keep every stride-th 4-node DAG (1 = all).
